@@ -349,6 +349,9 @@ def _walk_one(gm, entry, acc, second):
                 acc.fail(dict(case0, draws=prefix), 'not all draws consumed', 'draw-count')
             measure[(si, got)] += meas
             # reported probability of the walk's item
+            if any(not 0 <= i < len(types[t]) for t, i in got):
+                acc.fail(dict(case0, draws=prefix), '[%s] draws %r selected %r: a group that the ruleset under these flags does not have' % (name, prefix, got), 'wrong-cell')
+                return
             fac = [base[si][0]] + [types[t][i][0] for t, i in got]
             # random_walk reports base_prob 1.0 (it is not used for ordering); only sanity-check the type
             if not isinstance(item.get('prob'), float):
